@@ -469,7 +469,9 @@ def build12(rng, scale=1):
     # dupSubExpr: operands that are textually equal but yield a fresh value on every evaluation
     for c in ["&Rec{A: 1} == &Rec{A: 1}", "&Rec{} != &Rec{}", "(&Rec{}) == (&Rec{})", "&[2]int{} == &[2]int{}", "&struct{ a int }{1} == &struct{ a int }{1}"]:
         g.add("dupsub-fresh", "r := %s\n\treturn out(r)" % c)
-    for c in ["&[]int{1}[0] == &[]int{1}[0]", "&[]Rec{{}}[0].A == &[]Rec{{}}[0].A", "&(&Rec{}).A != &(&Rec{}).A"]:
+    for c in ["&[]int{1}[0] == &[]int{1}[0]", "&[]Rec{{}}[0].A == &[]Rec{{}}[0].A", "&(&Rec{}).A != &(&Rec{}).A",
+              # the same with the parentheses a statement header demands round a literal of a named type
+              "&([]int{1})[0] == &([]int{1})[0]", "&([]Rec{{}})[0].A == &([]Rec{{}})[0].A", "&((([]int{1})))[0] != &((([]int{1})))[0]", "&(([]Rec{{}})[0]).A == &(([]Rec{{}})[0]).A"]:
         g.add("dupsub-fresh", "r := %s\n\treturn out(r)" % c)
     # caseOrder: a type listed after an interface in the *same* clause is entered all the same
     g.add("caseorder-sameclause", "var x any = e.Any\n\tswitch x.(type) {\n\tcase fmt.Stringer, Str:\n\t\treturn \"first\"\n\tcase int:\n\t\treturn \"second\"\n\t}\n\treturn \"none\"")
